@@ -191,7 +191,11 @@ pub struct Rng(pub u64);
 
 impl Rng {
     pub fn new(seed: u64) -> Rng {
-        Rng(seed.wrapping_mul(0x9E3779B97F4A7C15).wrapping_add(0x1234_5678_9abc_def1))
+        // mix the seed first so that neighbouring seeds do not give shifted copies of one stream
+        let mut r = Rng(seed ^ 0x1234_5678_9abc_def1);
+        let a = r.next();
+        let b = r.next();
+        Rng(a ^ b.rotate_left(17))
     }
     pub fn next(&mut self) -> u64 {
         self.0 = self.0.wrapping_add(0x9E3779B97F4A7C15);
